@@ -417,8 +417,7 @@ func fineStabilizeScenarios(thorough bool) []string {
 		fmt.Sprintf("ring=%s|jl:%d:%d|maint=fine:%d", joinU([]uint64{A, B}), j, A, A),
 	}
 	if thorough {
-		out = append(out, fmt.Sprintf("ring=%s|join:%d:%d|maint=fine:%d", joinU([]uint64{A, B, C}), j, C, A),
-			fmt.Sprintf("ring=%s|leave:%d|maint=fine:%d", joinU([]uint64{A, B}), B, A))
+		out = append(out, fmt.Sprintf("ring=%s|leave:%d|maint=fine:%d", joinU([]uint64{A, B}), B, A))
 	}
 	return out
 }
